@@ -137,9 +137,18 @@ func readRecordHeaderV4(reader *checksumByteReader) (payloadSizeUncompressed uin
 		return 0, 0, false, err
 	}
 
+	checksumStart := reader.Count()
 	expectedChecksum, err := binary.ReadUvarint(reader)
 	if err != nil {
 		return 0, 0, false, err
+	}
+
+	// the checksum can't cover its own bytes: the writer stores it in its shortest form, an over-long encoding of the
+	// same value means these bytes were altered (and the header would extend into the payload)
+	var canonical [binary.MaxVarintLen64]byte
+	if reader.Count()-checksumStart != binary.PutUvarint(canonical[:], expectedChecksum) {
+		return 0, 0, false,
+			fmt.Errorf("%w: checksum [%x] is not stored in its shortest form", HeaderChecksumMismatchErr, expectedChecksum)
 	}
 
 	if actualChecksum != expectedChecksum {
